@@ -6,7 +6,7 @@ from .. import AnalysisError
 from ..report import Ob
 from ..cfg import calls_at, call_attr, is_self_attr
 from ..state import Analysis, State, TOP, sched_calls, sched_event_type, sched_action_name, bind_call, SCHED_PARAMS
-from ..norm import Normalizer, cmp_norm, FrameEnv
+from ..norm import Normalizer, cmp_norm, cmp_polarity, FrameEnv, ctext
 from .. import inventory as inv
 
 EXPLANATION = '''
@@ -55,14 +55,15 @@ def check(ctx):
     adv = fn.args.args[1].arg
 
     def end_refine(an, test, truth, st, frame):
-        r = cmp_norm(N, test, FrameEnv(frame), True)
-        if r and r[1] in ('<=', '<') and r[0].is_({'len(self._schedule)': 1, 'self._schedule_index': -1}) and r[1] == '<=':
-            cur = st.fields.get('#end', TOP)
-            want = 'T' if truth else 'F'
-            if cur in ('T', 'F') and cur != want:
-                return None
-            return st.with_field('#end', want) if cur != want else st
-        return NotImplemented
+        # "the index has run past the end":  len(schedule) - index <= 0 ; recognised in either polarity and any spelling
+        pol = cmp_polarity(N, test, FrameEnv(frame), {'len(self._schedule)': 1, 'self._schedule_index': -1}, '<=')
+        if pol is None:
+            return NotImplemented
+        cur = st.fields.get('#end', TOP)
+        want = 'T' if (truth == (pol == 1)) else 'F'
+        if cur in ('T', 'F') and cur != want:
+            return None
+        return st.with_field('#end', want) if cur != want else st
 
     def hook(an, n, before, after):
         st = after
@@ -80,27 +81,28 @@ def check(ctx):
         if n.kind == 'stmt' and isinstance(a, (ast.Assign, ast.AugAssign)):
             tg = a.targets if isinstance(a, ast.Assign) else [a.target]
             if any(is_self_attr(t, '_schedule_index') for t in tg):
-                if isinstance(a, ast.AugAssign) and isinstance(a.op, ast.Mod):
-                    mark('wrapped', ast.unparse(a.value) == 'len(self._schedule)')
+                env_ = FrameEnv(n.frame)
+                is_mod = isinstance(a, ast.AugAssign) and isinstance(a.op, ast.Mod)
+                if is_mod:
+                    mark('wrapped', ctext(a.value, env_) == 'len(self._schedule)')
                 elif isinstance(a, ast.Assign) and isinstance(a.value, ast.BinOp) and isinstance(a.value.op, ast.Mod):
-                    mark('wrapped', ast.unparse(a.value.left) == 'self._schedule_index' and ast.unparse(a.value.right) == 'len(self._schedule)')
-                elif isinstance(a, ast.AugAssign):
-                    mark('advanced', isinstance(a.op, ast.Add) and ast.unparse(a.value) == '1')
+                    mark('wrapped', ctext(a.value.left, env_) == 'self._schedule_index' and ctext(a.value.right, env_) == 'len(self._schedule)')
                 else:
-                    mark('advanced', N.norm(a.value).is_({'self._schedule_index': 1}, 1))
+                    newv = N.norm(ast.BinOp(left=a.target, op=a.op, right=a.value) if isinstance(a, ast.AugAssign) else a.value, env_)
+                    mark('advanced', newv.is_({'self._schedule_index': 1}, 1))
             if any(is_self_attr(t, '_state') for t in tg):
-                mark('state', isinstance(a, ast.Assign) and ast.unparse(a.value) == 'self._schedule[self._schedule_index][1]')
+                mark('state', isinstance(a, ast.Assign) and ctext(a.value, FrameEnv(n.frame)) == 'self._schedule[self._schedule_index][1]')
         for cl in calls_at(an.g, n):
             if call_attr(cl) == 'add_datapoint':
                 mark('recorded')
             if call_attr(cl) == 'schedule_event':
                 b = bind_call(cl, SCHED_PARAMS)
                 t = N.norm(b['time'], FrameEnv(n.frame)) if 'time' in b else None
-                good = t is not None and t.is_({'NOW': 1, 'self._schedule[self._schedule_index][0]': 1}) and ast.unparse(b.get('asset_id', ast.Constant(0))) == 'self.id' \
+                good = t is not None and t.is_({'NOW': 1, 'self._schedule[self._schedule_index][0]': 1}) and ctext(b.get('asset_id', ast.Constant(0)), FrameEnv(n.frame)) == 'self.id' \
                     and sched_action_name(cl) == '_update_state'
                 mark('scheduled', good)
-        if n.kind == 'for' and '_registered_objects' in ast.unparse(n.ast.iter) and 'actions' not in st.flags:
-            mark('actions', ast.unparse(n.ast.iter) == 'self._registered_objects.items()')
+        if n.kind == 'for' and '_registered_objects' in ctext(n.ast.iter, FrameEnv(n.frame)) and 'actions' not in st.flags:
+            mark('actions', ctext(n.ast.iter, FrameEnv(n.frame)) == 'self._registered_objects.items()')
         return st
     an = Analysis(P, g, ['_is_cyclical', '#end'])
     an.node_hooks.append(hook)
@@ -171,7 +173,7 @@ def check(ctx):
                     o1.fail(P, s.ctx, s.stmt, f'{attr} is changed after construction', file=s.mod.path, line=s.line)
     for s in inv.attr_stores(P, '_schedule_index'):
         o1.count()
-        if not (s.cls is c and s.func.name in ('__init__', '_update_state')):
+        if not (s.cls is c and s.func.name in inv.covered(P, {'__init__', '_update_state'})):
             o1.fail(P, s.ctx, s.stmt, 'the schedule index is written outside _update_state', file=s.mod.path, line=s.line)
     init = P.method(c, '__init__')[1]
     o1.count()
@@ -184,7 +186,10 @@ def check(ctx):
     # ---- C18.3 -------------------------------------------------------------------------------------
     o = Ob('C18.3', 'K2', 'for every (object, override) in registration order: default_action(object, now, state) without override, override(scheduler, object, now, state) with one')
     obs.append(o)
-    loops = [l for l in ast.walk(fn) if isinstance(l, ast.For) and '_registered_objects' in ast.unparse(l.iter)]
+    loops = []
+    for n_ in g.nodes.values():
+        if n_.kind == 'for' and '_registered_objects' in ctext(n_.ast.iter, FrameEnv(n_.frame)) and n_.ast not in loops:
+            loops.append(n_.ast)
     o.count()
     okl = False
     if len(loops) == 1 and ast.unparse(loops[0].iter) == 'self._registered_objects.items()' and isinstance(loops[0].target, ast.Tuple) and len(loops[0].target.elts) == 2:
